@@ -427,7 +427,6 @@ func (c *vhC19Ctx) vertexIs(l layer, k int, cmd float64, x, y float64) bool {
 func (c *vhC19Ctx) knownPercent() {
 	// percentages are resolved against the viewport size in px instead of the viewBox size;
 	// through ParseSVG the two differ exactly when width/height are given (and then D16 applies)
-	vKnown("D91", c.attr && c.mode == 1)
 }
 
 // rect: SVG 2 10.2: M x,y H x+w V y+h H x Z (no rx/ry)
